@@ -300,6 +300,26 @@ func runC03(w *World, r *Report) {
 		}
 	}
 	c03ReadOnlySelection(w, r)
+	// the comparable form of a filter (the key under which quota resources share a system
+	// flow) is built field by field from the filter's own fields of the same name
+	if tc := w.Fn(pkgSCfg, "Filter.ToComparable"); tc == nil {
+		r.Undec("R3", "Filter.ToComparable", token.NoPos, "function not found")
+	} else {
+		var lit *ssa.Alloc
+		Instrs(tc, func(in ssa.Instruction) {
+			if a, ok := in.(*ssa.Alloc); ok && structOf(a.Type()) == "ComparableFilter" {
+				lit = a
+			}
+		})
+		if lit == nil {
+			r.Undec("R3", "Filter.ToComparable/literal", tc.Pos(), "ComparableFilter literal not found")
+		} else {
+			mm, n := sameNameCopyMismatches(lit)
+			r.Check(len(mm) == 0 && n >= 5, "R3", "Filter.ToComparable/fields-from-same-named-fields", lit.Pos(), "each of the %d fields of the comparable key comes from the filter field of the same name; mismatches: %v", n, mm)
+		}
+	}
+	// a transaction answered early is re-selected as a response before its response side runs
+	r.Borrow(w, runC04, map[string]string{"R4": "R10"})
 	// every constraint of a list is examined: the qualifier loops end only by exhaustion or by returning a verdict
 	for _, q := range []string{"isHeadersQualified", "isStatusCodeQualified", "isMethodQualified", "isQueryParamsQualified", "isHeaderValueValid"} {
 		f := w.Fn(pkgFilter, "FilterNode."+q)
@@ -626,6 +646,19 @@ func c03ReadOnlySelection(w *World, r *Report) {
 				}
 			}
 		})
+		if name == "FilterNode.getUserFlow" || name == "FilterNode.getSystemFlow" {
+			for _, alt := range ReturnAlts(f, 0) {
+				for _, root := range sliceRoots(alt.Val) {
+					if u, ok := root.(*ssa.UnOp); ok && u.Op == token.MUL {
+						if fa, ok := u.X.(*ssa.FieldAddr); ok {
+							if _, sn := namedOf(fa.X.Type()); sn == "FilterNode" {
+								bad = append(bad, "returns the node's own list "+Path(u)+" at "+w.Pos(posOf(alt.Ret))+" (callers extend the result in place)")
+							}
+						}
+					}
+				}
+			}
+		}
 		n++
 		r.Check(len(bad) == 0, "R9", "selection-read-only/"+name, f.Pos(), "selecting flows for a transaction does not write the node's shared flow lists: %v", bad)
 	}
